@@ -27,3 +27,4 @@ for _f in ('_flush_compaction', 'clear_excess', '_cancel_compaction', '_compact_
 register_driver('db.DB.', 'index_scenario.py')
 register_driver('block_processor.BlockProcessor.', 'index_scenario.py')
 register_driver('mempool.MemPool.', 'mempool_native.py')
+register_driver('session.SessionManager.merkle_branch', 'session_handlers.py')
